@@ -739,6 +739,9 @@ func (t *Collection) Write() error {
 	}
 	rnl := t.rootAddRef()
 	defer t.rootDecRef(rnl)
+	if t.store.file == nil && !rnl.root.isEmpty() {
+		return errors.New("no file / in-memory only, so cannot Write()")
+	}
 	return t.write(rnl.root)
 }
 
